@@ -24,8 +24,10 @@ CONSTANTS
     NW,             \* number of write system calls that make a new archive complete (process layer)
     NF,             \* number of source files compact() reads (process layer)
     MaxFaults,      \* how many system calls may fail in one run (environment)
-    Ops,            \* subset of {"build_stream", "build_buf", "compact"}
-    Strategy,       \* "temp" (as coded) | "direct" (mutant: File::create(dest)) | "copy" (mutant: persist by copy+remove)
+    Ops,            \* subset of {"build_stream", "build_buf", "compact", "rebuild", "create"}
+    Strategy,       \* "temp" (as coded) | mutants: "direct" (File::create(dest)), "copy" (persist by copy+remove),
+                    \* "placeholder" (empty dest filled in place), "rm_on_err" (rebuild removes the target when the build
+                    \* fails), "probe" (create() first does File::create(dest) to see whether it is writable)
     SkipUnreadable, \* TRUE = compact() skips a source file whose read fails (the code before 131a1c3 for I/O errors;
                     \*        still the code for non-I/O read errors: Err(_) => continue) -- refuted
     StrictErr,      \* TRUE = demand Err => dest = Prev for compact too (refuted by the code: ErrAfterCommit)
@@ -178,7 +180,7 @@ DestPrevOrNew == DestClass \in {PrevClass, "New"}
 \*      the compacted file fail -- modification.rs:671-675 --; the property text demands P2 of build)
 ErrLeavesPrev == vres = "err" =>
                     \/ DestClass = PrevClass
-                    \/ (vop = "compact" /\ ~StrictErr /\ vhist.commit /\ DestClass = "New")
+                    \/ (vop \in {"compact", "create"} /\ ~StrictErr /\ vhist.commit /\ DestClass = "New")
 \* P3  no partial archive under the destination name: nothing ever writes into / truncates the object
 \*     that the destination entry refers to (it changes by rename only)
 NoWriteToDest == ~vhist.wdest
@@ -201,7 +203,9 @@ CanFail == vnfault < MaxFaults
 Faulted == vnfault' = vnfault + 1
 NoFault == vnfault' = vnfault
 
-IsBuild == vop \in {"build_stream", "build_buf"}
+\* operations that run the build program with the destination as its target: ArchiveBuilder::build itself,
+\* rebuild_archive (reads the source first) and OpenOptions::create / SFileCreateArchive (empty archive, re-opened after)
+IsBuild == vop \in {"build_stream", "build_buf", "rebuild", "create"}
 \* mutant strategy "placeholder": a destination that exists as an empty regular file is written in place
 InPlace == Strategy = "placeholder" /\ IsBuild /\ vprev = "empty"
 NoTemp  == Strategy = "direct" \/ InPlace
@@ -225,7 +229,7 @@ B_OpenTmp ==
 \* write_archive(file): V1/V2 stream seek+write per file/table, header last (builder.rs:638);
 \* V3/V4 write_all of the in-memory image (builder.rs:634) -- one or more write calls.
 B_Seek ==      \* lseek before a write (build_stream only); no effect, may fail
-    /\ vpc = "b_write" /\ vop # "build_buf" /\ vdone < vneed /\ CanFail
+    /\ vpc = "b_write" /\ vop \notin {"build_buf", "create"} /\ vdone < vneed /\ CanFail
     /\ FsFail("lseek") /\ Faulted /\ Goto("b_cleanup") /\ UNCHANGED <<vop, vdone, vneed, vread>>
 B_Write ==
     /\ vpc = "b_write" /\ vdone < vneed
@@ -282,9 +286,48 @@ B_Close ==
 \* build returns; for compact this continues at builder.build(&temp_path)? (modification.rs:662)
 B_Return ==
     /\ vpc \in {"b_ret_ok", "b_ret_err"}
-    /\ IF IsBuild
+    /\ IF vop = "create" /\ vpc = "b_ret_ok"
+         THEN UNCHANGED fsvars /\ Goto("x_reopen")
+         ELSE IF vop = "rebuild" /\ vpc = "b_ret_err" /\ Strategy = "rm_on_err" /\ vdir[Dest] # 0
+         THEN FsUnlink(Dest) /\ Goto("x_ret_err")            \* mutant: "don't leave a partial target behind"
+         ELSE IF IsBuild
          THEN FsReturn(IF vpc = "b_ret_ok" THEN "ok" ELSE "err") /\ Goto("done")
          ELSE UNCHANGED fsvars /\ Goto(IF vpc = "b_ret_ok" THEN "c_reopen" ELSE "c_cleanup")
+    /\ UNCHANGED <<vop, vdone, vneed, vnfault, vread>>
+
+\* --- rebuild_archive (rebuild.rs): read every source file, then build to the target ---------------------------
+\* extract_files_with_metadata: a file that cannot be read aborts the rebuild (since 9d57560); SkipUnreadable = TRUE is
+\* the code before it (Err(e) => { warn; continue }) and is kept as a deviation TLC must refute (MC_AtomicWrite_rebuildskip)
+R_Read ==
+    /\ vpc = "r_read" /\ vread < NF
+    /\ \/ /\ NoFault /\ UNCHANGED <<fsvars, vneed>> /\ Goto("r_read")
+       \/ /\ CanFail /\ FsFail("read") /\ Faulted
+          /\ IF SkipUnreadable
+               THEN vneed' = vneed - 1 /\ Goto("r_read")
+               ELSE UNCHANGED vneed /\ Goto("x_ret_err")
+    /\ vread' = vread + 1 /\ UNCHANGED <<vop, vdone>>
+R_StartBuild ==
+    /\ vpc = "r_read" /\ vread = NF
+    /\ Goto("b_open") /\ UNCHANGED <<fsvars, vop, vdone, vneed, vnfault, vread>>
+\* --- OpenOptions::create / SFileCreateArchive: build an empty archive, then open it -----------------------------
+\* mutant "probe": File::create(path)? before anything else, to fail early when the path is not writable
+X_Probe ==
+    /\ vpc = "x_probe"
+    /\ \/ /\ FsCreateOrTrunc(Dest, 7) /\ NoFault /\ Goto("x_probe_close")
+       \/ /\ CanFail /\ FsFail("open") /\ Faulted /\ Goto("x_ret_err")
+    /\ UNCHANGED <<vop, vdone, vneed, vread>>
+X_ProbeClose ==
+    /\ vpc = "x_probe_close" /\ FsClose(7) /\ NoFault /\ Goto("b_open")
+    /\ UNCHANGED <<vop, vdone, vneed, vread>>
+\* Self::new().open(path) after the build: a failure here returns Err with the new archive in place
+X_Reopen ==
+    /\ vpc = "x_reopen"
+    /\ \/ /\ FsOpen(Dest, 4, FALSE) /\ NoFault /\ Goto("x_ret_ok")
+       \/ /\ CanFail /\ FsFail("open") /\ Faulted /\ Goto("x_ret_err")
+    /\ UNCHANGED <<vop, vdone, vneed, vread>>
+X_Return ==
+    /\ vpc \in {"x_ret_ok", "x_ret_err"}
+    /\ FsReturn(IF vpc = "x_ret_ok" THEN "ok" ELSE "err") /\ Goto("done")
     /\ UNCHANGED <<vop, vdone, vneed, vnfault, vread>>
 
 \* --- MutableArchive::compact (modification.rs:558) ----------------------------------------------
@@ -364,12 +407,16 @@ Die == Crash /\ Goto("dead") /\ UNCHANGED <<vop, vdone, vneed, vnfault, vread>>
 Init ==
     /\ vop \in Ops
     /\ \E prev \in PrevKinds : (vop = "compact" => prev \in {"present", "readonly"}) /\ FsInit(prev, NW)
-    /\ vpc = IF vop = "compact" THEN "c_begin" ELSE "b_open"
+    /\ vpc = CASE vop = "compact" -> "c_begin"
+               [] vop = "rebuild" -> "r_read"
+               [] vop = "create" /\ Strategy = "probe" -> "x_probe"
+               [] OTHER -> "b_open"
     /\ vdone = 0 /\ vneed = NW /\ vnfault = 0 /\ vread = 0
 
 Next ==
     \/ B_OpenTmp \/ B_Seek \/ B_Write \/ B_Abort \/ B_Flush \/ B_Rename \/ B_CopyOpen \/ B_Copy \/ B_CopyRm
     \/ B_Cleanup \/ B_Close \/ B_Return
+    \/ R_Read \/ R_StartBuild \/ X_Probe \/ X_ProbeClose \/ X_Reopen \/ X_Return
     \/ C_Begin \/ C_Flush \/ C_OpenTmp \/ C_Read \/ C_StartBuild \/ C_Reopen \/ C_DropOld \/ C_Rename \/ C_Verify \/ C_OpenRw
     \/ C_Cleanup \/ C_Return
     \/ Die
